@@ -604,6 +604,7 @@ class Sim:
         w = self.w
         parts = kind.split("_")
         osrc, ocache = w.source("o", ["z"], self.backend)
+        self._last_other = (osrc, ocache)
         oz = ocache.attrs["cols"]["o.z"]
         a = _first_visible(self.ref)
         if parts[0] == "join":
@@ -843,6 +844,8 @@ class Explorer:
             want = hazard(sim.ref) if self.backend != "polars" else None
             got = self.guard(sim, node, s2)
             self.judge(sim, kind, s2, want, got)
+            if want is None and got is None and self.backend != "polars" and kind.startswith("join_") and sim.ref.filtered:
+                self.joined_filter(sim, kind, node, s2)
             if (want or got) and self.backend != "polars":
                 # an alias directly before the verb makes it fit (on a copy: the exploration itself continues without it)
                 s3 = Sim.__new__(Sim)
@@ -856,6 +859,35 @@ class Explorer:
                                  f"after a subquery (alias directly before the verb) the guard still refuses `{kind}`: {got3}")  # fmt: skip
                 except PyRaise:
                     pass
+
+    def joined_filter(self, sim, kind, node, seq):
+        """one step past an accepted join of a *filtered* table: the joined SELECT still carries that WHERE when the table is the
+        left input (its WHERE is the running WHERE) or the right input of an inner join (the compiler moves the right WHERE into
+        the joined query; decided on the interpreted Join branch by C06 R2 / R3) - so a full join must not be folded into it"""
+        how, side = kind.split("_")[1], kind.split("_")[2]
+        if not (side == "l" or how == "inner"):
+            return
+        w = self.w
+        osrc, ocache = sim._last_other
+        lc, rc = (sim.cache, ocache) if side == "l" else (ocache, sim.cache)
+        s3 = seq + ["join_full_l"]
+        try:
+            jc = w.update(lc, node, rc)
+            psrc, pcache = w.source("p", ["y"], self.backend)
+            on2 = w.fn("eq", EW, ocache.attrs["cols"]["o.z"], pcache.attrs["cols"]["p.y"])
+            node2 = w.obj("Join", child=node, right=psrc, on=on2, how="full")
+            self.stats["guard_evaluations"] += 1
+            got2 = w.requires_subquery(jc, node2)
+        except PyRaise as p_:
+            self.add("internal-error", "join_full_l", p_.name, s3, f"Cache.update / requires_subquery raises {p_.name} after `{' >> '.join(seq)}`: {p_.msg}")
+            return
+        if got2 is None:
+            self.add("missed-hazard", "join_full_l", "for a full join the WHERE of an input cannot be folded into ON", s3,
+                     f"`{' >> '.join(s3)}`: the joined SELECT carries the WHERE of its {'left' if side == 'l' else 'right'} input, but the guard lets a "
+                     "full join into it (the cache does not record that the joined table is filtered); the statement computes something else than "
+                     "the verbs mean and no SubqueryError is raised")  # fmt: skip
+        else:
+            self.stats["hazards_confirmed"] += 1
 
     def signature(self, sim: Sim):
         """abstract state: the reference state and every field of the interpreted cache, with identities and generated names
